@@ -1124,6 +1124,25 @@ func (g *Gen) randomGenesis() genSpec {
 	return s
 }
 
+// probePair: every spelling of an EXISTING pair's remote token a single-item query might be given -- the exact one must
+// find it, the near misses (an extra byte in front or behind, a byte short, wrong-case prefix, no prefix) must not find
+// some other pair.
+func (g *Gen) probePair(domain uint32, tok []byte) {
+	h := hx(tok)
+	sp := []string{h, "0x" + h, "0X" + h, "ff" + h, "00" + h, "0xff" + h, h + "00", "0x" + h + "ff", strings.ToUpper(h), "0x" + strings.ToUpper(h)}
+	if len(tok) > 1 {
+		sp = append(sp, hx(tok[1:]), "0x"+hx(tok[1:]), hx(tok[:len(tok)-1]))
+	}
+	if len(tok) == 32 {
+		sp = append(sp, hx(tok[12:]), "0x"+hx(tok[12:])) // the 20-byte form of an EVM address that was registered padded
+	}
+	for _, t := range sp {
+		if g.chance(0.5) {
+			g.emit(Op{Kind: "query", Sub: "TokenPair", KV: newKV().set("domain", fmt.Sprint(domain)).set("token", hs(t))})
+		}
+	}
+}
+
 // probeGenesis reads back, through the queries and the user flows, every entry a genesis put into the store (entries a
 // genesis can hold but no transaction can create -- short messenger addresses, odd spellings -- are only reachable here).
 func (g *Gen) probeGenesis(sp genSpec) {
@@ -1139,6 +1158,9 @@ func (g *Gen) probeGenesis(sp genSpec) {
 		f := strings.Split(p, ":")
 		if len(f) >= 2 {
 			g.emit(Op{Kind: "query", Sub: "TokenPair", KV: newKV().set("domain", f[0]).set("token", hs("0x"+f[1]))})
+			var d uint32
+			fmt.Sscan(f[0], &d)
+			g.probePair(d, unhexOr(f[1]))
 		}
 	}
 	for _, u := range sp.used {
@@ -1304,6 +1326,7 @@ func scnRegistry(g *Gen, budget int, arg string) {
 		for _, p := range k.GetAllTokenPairs(ctx) {
 			g.emit(Op{Kind: "query", Sub: "TokenPair", KV: newKV().set("domain", fmt.Sprint(p.RemoteDomain)).set("token", hs("0x"+hx(p.RemoteToken)))})
 			g.emit(Op{Kind: "query", Sub: "TokenPair", KV: newKV().set("domain", fmt.Sprint(p.RemoteDomain+1)).set("token", hs(hx(p.RemoteToken)))})
+			g.probePair(p.RemoteDomain, p.RemoteToken)
 		}
 		for _, l := range k.GetAllPerMessageBurnLimits(ctx) {
 			g.emit(Op{Kind: "query", Sub: "PerMessageBurnLimit", KV: newKV().set("denom", hs(l.Denom))})
